@@ -3,6 +3,7 @@
 mod c01;
 mod c03;
 mod c04;
+mod c05;
 mod c06;
 mod c11;
 mod c20;
@@ -50,6 +51,7 @@ fn main() {
         "c03" => c03::run(seed, tier, &mut w),
         "c16" => c16::run(seed, tier, &mut w),
         "c04" => c04::run(seed, tier, &mut w),
+        "c05" => c05::run(seed, tier, &mut w),
         "c12" => c12::run(seed, tier, &mut w),
         "c13" => c13::run(seed, tier, &mut w),
         "c15" => c15::run(seed, tier, &mut w),
